@@ -2204,3 +2204,208 @@ def fieldset_order_scenarios():
             out.append({'name': f'fieldsets-{"superset" if rich_first else "subset"}-first:{"id" if ident else "noid"}',
                         'ops': ops})
     return out
+
+
+def append_shorter_associated_scenarios(chk: Check, rng, n):
+    """C07: a store created with an associated file, appended to through the base file ALONE (so that the associated
+    file holds fewer trajectories than the base file), then reopened for appending with the associated file again.
+    Oracle only (a plain list of tags): every add() returns the number of trajectories added before it, len() is
+    that number + 1, and a reading session shows all of them in insertion order."""
+    e = Env.get()
+    TS = e.TS
+    for j in range(n):
+        root = chk.tmp / f'shortassoc{j}'
+        root.mkdir(parents=True, exist_ok=True)
+        bp, ap = root / 'b.nc', root / 'a.nc'
+        n1, n2, n3 = rng.randint(1, 4), rng.randint(1, 3), rng.randint(1, 3)
+        ident = rng.random() < 0.5
+        cache = rng.choice([NB + 100, 2 * NB + 100, None])
+        added, obs = [], {'add_returned': [], 'len_after_add': []}
+
+        def put(ts, sig):
+            t = len(added) + 1
+            obs['add_returned'].append(int(ts.add(e.mk(t, (3000 - t) if ident else None, sig, 'ok'))))
+            added.append(t)
+            obs['len_after_add'].append(len(ts))
+        try:
+            with TS.create(base_file=bp, associated_files=[(ap, [XFS])]) as ts:
+                for _ in range(n1):
+                    put(ts, 1)
+            with TS.append(base_file=bp) as ts:
+                for _ in range(n2):
+                    put(ts, 0)
+            with TS.append(base_file=bp, associated_files=[ap], cache_size_mb=e.cache_mb(cache)) as ts:
+                obs['len_on_reopen'] = len(ts)
+                for _ in range(n3):
+                    put(ts, 1)
+            gc.collect()
+            with TS.open(base_file=bp, cache_size_mb=e.cache_mb(cache)) as r_:
+                obs['read_len'] = len(r_)
+                obs['read_by_index'] = [tag_of(r_[i]) for i in range(len(added))]
+                obs['read_iter'] = [tag_of(x) for x in r_]
+                try:
+                    r_[len(added)]
+                    obs['beyond'] = 'returned'
+                except IndexError:
+                    obs['beyond'] = 'IndexError'
+            obs['base_file_raw'] = raw_tags(bp)
+        except Exception as ex:  # noqa: BLE001
+            obs['error'] = f'{type(ex).__name__}: {ex}'[:140]
+        gc.collect()
+        total = n1 + n2 + n3
+        ok = ('error' not in obs and obs['add_returned'] == list(range(total))
+              and obs['len_after_add'] == list(range(1, total + 1)) and obs['len_on_reopen'] == n1 + n2
+              and obs['read_len'] == total and obs['read_by_index'] == added and obs['read_iter'] == added
+              and obs['beyond'] == 'IndexError' and obs['base_file_raw'] == added)
+        chk.count('append_shorter_associated_scenarios')
+        _report(chk, f'append-with-associated-file-shorter-than-base:{n1}+{n2}+{n3}:{"id" if ident else "noid"}:{j}', ok,
+                {'sizes': [n1, n2, n3], 'added': added, **obs})
+
+
+def mixed_merge_order_scenarios(chk: Check, rng, n):
+    """C08 ("a store must be either fully identified or not at all"): a merge whose inputs are partly identified and
+    partly not is refused WHATEVER the position of the unidentified ones (first, in the middle, last).  Oracle only:
+    ValueError, no output store, every input still in place with its own trajectories and identifiers."""
+    e = Env.get()
+    TS = e.TS
+    for j in range(n):
+        root = chk.tmp / f'mixorder{j}'
+        root.mkdir(parents=True, exist_ok=True)
+        k = rng.randint(2, 4)
+        if j == 0:
+            kinds = [False] + [True] * (k - 1)          # unidentified first
+        elif j == 1:
+            kinds = [True] * (k - 1) + [False]          # unidentified last
+        else:
+            kinds = [rng.random() < 0.5 for _ in range(k)]
+            if all(kinds) or not any(kinds):
+                kinds[rng.randrange(k)] = not kinds[0]
+        paths, content, t = [], [], 1
+        obs = {}
+        try:
+            for i, idn in enumerate(kinds):
+                p = root / f's{i}.nc'
+                rows = []
+                with TS.create(base_file=p) as ts:
+                    for _ in range(rng.randint(1, 3)):
+                        fid = (0 if t == 2 else 4000 - t) if idn else None
+                        ts.add(e.mk(t, fid, 0, 'ok'))
+                        rows.append((t, fid))
+                        t += 1
+                paths.append(p)
+                content.append(rows)
+            out = root / 'm.aeic-store'
+            try:
+                TS.merge(output_store=out, input_stores=paths)
+                obs['merge'] = 'returned'
+            except ValueError:
+                obs['merge'] = 'refused'
+            gc.collect()
+            obs['output_exists'] = out.exists()
+            obs['inputs_in_place'] = [p.exists() for p in paths]
+            if obs['merge'] == 'returned' and out.exists():
+                try:
+                    with TS.open(base_file=out) as r_:
+                        obs['merged_flight_ids'] = [None if x.flight_id is None else int(x.flight_id) for x in r_]
+                        fids = [f for rows in content for (_, f) in rows if f is not None]
+                        try:
+                            obs['merged_lookups'] = [None if (r := r_.get_flight(f)) is None else tag_of(r) for f in fids]
+                        except Exception as ex:  # noqa: BLE001
+                            obs['merged_lookups'] = f'{type(ex).__name__}: {ex}'[:100]
+                except Exception as ex:  # noqa: BLE001
+                    obs['merged_open'] = f'{type(ex).__name__}: {ex}'[:100]
+            seen = []
+            for p, idn in zip(paths, kinds):
+                if not p.exists():
+                    seen.append(None)
+                    continue
+                with TS.open(base_file=p) as r_:
+                    seen.append([(tag_of(x), None if x.flight_id is None else int(x.flight_id)) for x in r_])
+                    if idn:
+                        rows = content[paths.index(p)]
+                        obs.setdefault('input_lookups_ok', []).append(
+                            all((r := r_.get_flight(f)) is not None and tag_of(r) == tg for (tg, f) in rows))
+            obs['inputs_read'] = seen
+        except Exception as ex:  # noqa: BLE001
+            obs['error'] = f'{type(ex).__name__}: {ex}'[:140]
+        gc.collect()
+        ok = ('error' not in obs and obs['merge'] == 'refused' and not obs['output_exists'] and all(obs['inputs_in_place'])
+              and obs['inputs_read'] == [list(rows) for rows in content] and all(obs.get('input_lookups_ok', [True])))
+        chk.count('mixed_merge_order_scenarios:' + ('unidentified-first' if not kinds[0] else 'identified-first'))
+        _report(chk, f'merge-mixed-identification:{"".join("I" if x else "U" for x in kinds)}:{j}', ok,
+                {'kinds': kinds, 'content': content, **obs})
+
+
+def rejected_then_other_schema_scenarios(chk: Check):
+    """C10: the FIRST trajectory ever offered to a fresh file-backed store is rejected (a required base value is
+    missing); the NEXT one offered has other field sets (base + the extra set) and lacks the required per-trajectory
+    value of the extra set.  Both are no-ops: length 0, valid additions (of either schema) then get indices 0, 1, the
+    store closes, and a reopen shows exactly the valid ones.  Oracle only (plain list)."""
+    e = Env.get()
+    TS = e.TS
+    for which in ('starting_mass', 'total_fuel_mass'):
+        for ident in (False, True):
+            for valid_sig in (1, 0):
+                name = f'rejected-first-add-then-other-schema-missing-required:{which}:{"id" if ident else "noid"}:' \
+                       f'{"extra" if valid_sig else "base"}-schema-follows'
+                root = chk.tmp / f'rejother_{which}_{int(ident)}_{valid_sig}'
+                root.mkdir(parents=True, exist_ok=True)
+                p = root / 's.nc'
+                fid = (lambda t: 600 - t) if ident else (lambda t: None)
+                obs = {}
+                ts = None
+                try:
+                    ts = TS.create(base_file=p)
+                    try:
+                        ts.add(e.mk(1, fid(1), 0, 'missing', which))
+                        obs['bad1'] = 'accepted'
+                    except ValueError:
+                        obs['bad1'] = 'rejected'
+                    obs['len_after_bad1'] = len(ts)
+                    bad2 = e.mk(2, fid(2), 0, 'ok')
+                    bad2.add_fields(e.FieldSet.from_registry(XFS))        # atag (required, per trajectory) stays None
+                    try:
+                        ts.add(bad2)
+                        obs['bad2'] = 'accepted'
+                    except ValueError:
+                        obs['bad2'] = 'rejected'
+                    except Exception as ex:  # noqa: BLE001
+                        obs['bad2'] = f'raised {type(ex).__name__}: {ex}'[:100]
+                    obs['len_after_bad2'] = len(ts)
+                    obs['file_after_bad2'] = p.exists()
+                    obs['good_returned'] = []
+                    for t in (3, 4):
+                        try:
+                            obs['good_returned'].append(int(ts.add(e.mk(t, fid(t), valid_sig, 'ok'))))
+                        except Exception as ex:  # noqa: BLE001
+                            obs['good_returned'].append(f'{type(ex).__name__}: {ex}'[:80])
+                    obs['len_after_good'] = len(ts)
+                    try:
+                        obs['read_in_session'] = [tag_of(ts[0]), tag_of(ts[1])]
+                    except Exception as ex:  # noqa: BLE001
+                        obs['read_in_session'] = f'{type(ex).__name__}: {ex}'[:80]
+                except Exception as ex:  # noqa: BLE001
+                    obs['error'] = f'{type(ex).__name__}: {ex}'[:140]
+                try:
+                    if ts is not None:
+                        ts.close()
+                    obs['close'] = 'ok'
+                except Exception as ex:  # noqa: BLE001
+                    obs['close'] = f'{type(ex).__name__}: {ex}'[:100]
+                gc.collect()
+                try:
+                    with TS.open(base_file=p) as r_:
+                        obs['reopen_len'] = len(r_)
+                        obs['reopen'] = [tag_of(x) for x in r_]
+                        if ident:
+                            obs['reopen_lookup'] = [None if (r := r_.get_flight(fid(t))) is None else tag_of(r) for t in (1, 2, 3, 4)]
+                except Exception as ex:  # noqa: BLE001
+                    obs['reopen'] = f'{type(ex).__name__}: {ex}'[:100]
+                gc.collect()
+                ok = ('error' not in obs and obs['bad1'] == 'rejected' and obs['len_after_bad1'] == 0
+                      and obs['bad2'] != 'accepted' and obs['len_after_bad2'] == 0 and obs['file_after_bad2'] is False
+                      and obs['good_returned'] == [0, 1] and obs['len_after_good'] == 2 and obs['read_in_session'] == [3, 4]
+                      and obs['close'] == 'ok' and obs.get('reopen_len') == 2 and obs['reopen'] == [3, 4]
+                      and (not ident or obs.get('reopen_lookup') == [None, None, 3, 4]))
+                chk.count('rejected_then_other_schema_scenarios')
+                _report(chk, name, ok, obs)
